@@ -81,6 +81,11 @@ CLAIMED = {
         text='Exploration over the product of 21 security-block classes (valid, none, wrong tag, unknown key id, altered target/primary, unknown context, missing target, duplicate parameters/results, count mismatch, 0/2 results, garbage/wrong-type/truncated COSE, non-ASB data, bad source EID, scope naming a missing block, two blocks with the first/second/neither failing) x BIB/BCB x key store {all, wrong, none} x accept-after-verify x deletion report requested; fail => no delivery, no escaping exception, report with deleted + security reason; ok/none => delivered with the expected payload and accepted blocks removed.',
         note=_NOTE,
     ),
+    'C16': dict(
+        technique='runtime differential monitor: octets transmitted by the real source agent decrypted and re-encrypted by an independent AAD/Enc_structure/AES-GCM/key-wrap implementation; payload at the application step of a real receiver; every single-bit flip judged against covered spans and the independent verdict',
+        text='Exploration with an exhaustive sub-space: plaintext lengths 0..1000 across AES block boundaries x COSE_Encrypt0 A256GCM/A128GCM and COSE_Encrypt with A256KW x fixed/generated IVs x CRC types and extension blocks: wire data == independent AES-GCM encryption, no plaintext (or content key) in the transmitted octets, receiver with the key recovers exactly the plaintext (BCB removed); EVERY single-bit flip of the encoding (sampled for large bundles) and field-level edits (ciphertext, GCM tag, IV, key id, wrapped key, algorithm, primary fields, target flags, security source, scope) through a real receiver with accept on and off: no delivery and no plaintext at the application step; wrong and missing keys.',
+        note=_NOTE + ' Exceptions thrown by the bundle decoder for mutated octets are C08 material and are not judged here.',
+    ),
     'C11': dict(
         technique='runtime differential monitor on transmitted bytes: forwarded output of the real agent decoded by the independent RFC 9171 decoder and compared field by field with the received bundle',
         text='Exploration over the product of hop-by-hop block combinations (previous node none/other/self, 0-2 hop counts, age, 0-2 unknown blocks), CRC types, dense/sparse/permuted numbering, creation time zero or not, lifetimes, dwell times and two routes; plus histories of different bundles through one agent to expose state carried between forwards.',
